@@ -1,22 +1,11 @@
 import JwtModel
 /-! Correspondence driver: reads operations on stdin, prints the model's answer per line. -/
-open Jwt Jwt.Wire
+open Jwt Jwt.Wire Jwt.Drive
 
 def handle (fields : List String) : String :=
-  match fields with
-  | ["contained", p, q] =>
-    match unhexStr p, unhexStr q with
-    | some p, some q => boolStr (isContainedIn p q)
-    | _, _ => "unsupported"
-  | ["wild", p] =>
-    match unhexStr p with
-    | some p => boolStr (hasWildCards p)
-    | none => "unsupported"
-  | ["wildcount", p] =>
-    match unhexStr p with
-    | some p => toString (countTokenWildcards p)
-    | none => "unsupported"
-  | _ => "bad-op"
+  match handleBasic fields with
+  | some r => r
+  | none => "bad-op"
 
 partial def loop (h : IO.FS.Stream) (out : IO.FS.Stream) : IO Unit := do
   let line ← h.getLine
